@@ -393,8 +393,8 @@ class ColumnBackend(PolarsSchemaBackend):
             default_value = pl.lit(schema.default, dtype=schema.dtype.type)
         expr = pl.col(schema.selector)
         if is_float_dtype(check_obj, schema.selector):
+            # nulls and nan values are effectively equivalent in float columns
             expr = expr.fill_nan(default_value)
-        else:
-            expr = expr.fill_null(default_value)
+        expr = expr.fill_null(default_value)
 
         return check_obj.with_columns(expr)
